@@ -863,6 +863,34 @@ func (e *Env) call(n *ECall) TV {
 			e.fail("dom() of non-map")
 		}
 		return TV{S: vc.mapDom(e.st, mt, m.S), Sort: arraySort(vc.enc.sortOf(mt.Key()), sBool)}
+	case "seenIn":
+		// seenIn(k, x): x has been yielded by the map-range loop with ordinal k of this function
+		// (for the invariants of a loop nested inside it)
+		if len(n.Args) == 2 {
+			if iv, ok := n.Args[0].(*EInt); ok {
+				ord := 0
+				fmt.Sscanf(iv.Val, "%d", &ord)
+				for _, li := range vc.loopOrd {
+					if li.ordinal != ord {
+						continue
+					}
+					for _, p := range li.header.Preds {
+						if li.body[p] {
+							continue
+						}
+						for _, ins := range p.Instrs {
+							if rg, ok := ins.(*ssa.Range); ok {
+								if comp, ok := vc.rangeSeen[rg]; ok {
+									return TV{S: sel(vc.cur(e.st, comp), arg(1).S), Sort: sBool, Ty: boolT}
+								}
+							}
+						}
+					}
+				}
+			}
+		}
+		e.fail("seenIn(<loop ordinal of a map-range loop>, x)")
+		return TV{}
 	case "seen":
 		if e.seenComp == "" {
 			e.fail("seen() outside a map-range loop")
